@@ -1359,6 +1359,14 @@ class Interp:
                 return I(max(0, r0[1] - a[1][1]))
             if name in ("min", "max") and a[1][0] == "i":
                 return I(min(r0[1], a[1][1]) if name == "min" else max(r0[1], a[1][1]))
+            if name in ("checked_add", "checked_sub", "checked_mul") and r0[0] == "i" and len(a) == 2 and a[1][0] == "i":
+                rt = ((n.get("recv") or {}).get("ty") or (n.get("recv") or {}).get("tya") or "").lstrip("&").replace("mut ", "").strip()
+                rng = {"u8": (0, 2**8 - 1), "u16": (0, 2**16 - 1), "u32": (0, 2**32 - 1), "u64": (0, 2**64 - 1), "usize": (0, 2**64 - 1),
+                       "i8": (-2**7, 2**7 - 1), "i16": (-2**15, 2**15 - 1), "i32": (-2**31, 2**31 - 1), "i64": (-2**63, 2**63 - 1),
+                       "isize": (-2**63, 2**63 - 1)}.get(rt)
+                if rng is not None:
+                    v = r0[1] + a[1][1] if name == "checked_add" else (r0[1] - a[1][1] if name == "checked_sub" else r0[1] * a[1][1])
+                    return SOME(I(v)) if rng[0] <= v <= rng[1] else NONE
         if isinstance(r0, (Clo, Py, FnRef)) and name in ("call", "call_mut", "call_once") and len(a) == 2:
             return self.apply(r0, a[1][1] if a[1][0] == "t" else [a[1]])
         if name in ("eq", "ne") and len(a) == 2:
